@@ -1,3 +1,5 @@
 -- GENERATED from /repo sources by tools/extract.py on every check; do not edit
 namespace Elvis.Gen
+/-- reassembly/segment.rs `TLB` (timer lower bound, seconds) -/
+def TLB : Nat := 15
 end Elvis.Gen
